@@ -6,8 +6,15 @@ from .dl import print_program
 from . import ref
 
 
+def _enc(v):
+    """RamDomain image of a value (floats by bit pattern)"""
+    if v.__class__.__name__ == "F32":
+        return v.bits - (1 << 32) if v.bits >= (1 << 31) else v.bits
+    return int(v)
+
+
 def cpp_set(ts):
-    return "{" + ", ".join("{" + ",".join(str(int(v)) for v in t) + "}" for t in sorted(ts)) + "}"
+    return "{" + ", ".join("{" + ",".join(str(_enc(v)) for v in t) + "}" for t in sorted(ts, key=lambda t: [_enc(v) for v in t])) + "}"
 
 
 def build(name, prog, scenarios, kind, nthreads=2, extra=None):
